@@ -523,6 +523,13 @@ class HsFamily(Family):
                     f1, f2 = rng.bytes(1524), rng.bytes(1536)
                     bump(stats, "echo_cases")
                     yield [f"hs.new a {role} {hexb(f1)} {hexb(f2)}", f"hs.proc a 03{p1.hex()}", f"!hs.p2 {role} {p1.hex()} {hexb(f1)} {hexb(f2)}"]
+                # one wrong bit in EACH of the 32 digest bytes in turn → no valid digest → echo
+                for scheme in ("c", "s"):
+                    for k in range(32):
+                        p1 = GH.craft_p1(rng, scheme, rng.below(728), key, flip_at=k)
+                        f1, f2 = rng.bytes(1524), rng.bytes(1536)
+                        bump(stats, "digest_byte_flips")
+                        yield [f"hs.new a {role} {hexb(f1)} {hexb(f2)}", f"hs.proc a 03{p1.hex()}", f"!hs.p2 {role} {p1.hex()} {hexb(f1)} {hexb(f2)}"]
         if pid in ("C05", "C03"):
             n = 150 if tier == "quick" else 1500
             parts = ["1", "all", "1536", "1537", "1535,2", "7,300", "3073", "2000,1000,73,1", "1,1536,1536", "40"]
